@@ -898,9 +898,10 @@ func zeroSize(a string) (string, bool) {
 }
 
 // canonEvents rewrites an event list into a normal form:
-//   encode: E(a,b) = E(a) E(b); E(<integer expression>) = W(<integer expression>)
-//   decode: D(a,b) = D(a) D(b); D(&x:uintN) = R(&x:uintN)
-//   size:   ADD(S(a,b)) = ADD(S(a)) ADD(S(b)); S(zero:uintN) = bsize(zero:uintN) = N/8; sums are flattened; terms are sorted
+//
+//	encode: E(a,b) = E(a) E(b); E(<integer expression>) = W(<integer expression>)
+//	decode: D(a,b) = D(a) D(b); D(&x:uintN) = R(&x:uintN)
+//	size:   ADD(S(a,b)) = ADD(S(a)) ADD(S(b)); S(zero:uintN) = bsize(zero:uintN) = N/8; sums are flattened; terms are sorted
 func canonEvents(role string, ev []string) []string {
 	var out []string
 	for _, e := range ev {
